@@ -267,7 +267,7 @@ func (lf *lexFolder) run(fr *lexFrame, pos int, reads int, emitted string, lastW
 		blk := fr.blk
 		if fr.idx == 0 {
 			fr.visits[blk]++
-			if fr.visits[blk] > 4 {
+			if fr.visits[blk] > 16 {
 				lf.record(lexOutcome{kind: "cut"})
 				return
 			}
